@@ -29,6 +29,9 @@ run_demo() { # $1 = tree
 (cd "$D/repo" && patch -p1 -s < "$SRC/patch.diff") || { echo "RESULT $NAME patch-failed"; exit 3; }
 (cd "$D/repo" && go build ./... ) >"$LOG.build" 2>&1 || { echo "RESULT $NAME build-failed"; exit 3; }
 (cd "$D/repo" && go test -vet=off -count=1 ./... ) >"$LOG.tests" 2>&1 && T=pass || T=FAIL
+if [ $T = FAIL ]; then # the pinned suite has wall-clock flakes (TestCreateUpdateFetch, compat tests at hour boundaries): one retry
+  sleep 11; (cd "$D/repo" && go test -vet=off -count=1 ./... ) >"$LOG.tests" 2>&1 && T=pass || T=FAIL
+fi
 run_demo "$D/repo" && DW=pass || DW=fail
 run_demo "$D/clean" && DC=pass || DC=fail
 echo "CONFIRM $NAME tests-with-change=$T demo-with-change=$DW demo-on-clean=$DC"
